@@ -41,6 +41,17 @@ LEAF_DEFAULT = {
     "enum": "\"RED\"", "fixed": "\"ab\"", "typeref": "\"t\"", "custom": "\"c\"", "record": "{\"a\":1}", "union": "{\"int\":3}",
 }
 
+# extreme default literals: type minima, escapes and non-ASCII text, bytes >= 0x80 (one character per byte in the schema
+# language), the last symbol / member
+LEAF_DEFAULT_X = {
+    "o_enum": "\"PINK\"", "o_fixed": "\"\\u0000\\u00ff\\u007f\"", "o_typeref": "-7", "o_record": "{\"country\":\"\\u00e9\\\"\",\"zip\":0}",
+    "o_union": "{\"gr.other.OLeaf\":{}}",
+    "int32": "-2147483648", "int64": "-9223372036854775808", "float32": "-1.5e-3", "float64": "1e300", "bool": "false",
+    "string": "\"a\\\"b\\\\c\\n\\u00e9\\u4e16\"", "bytes": "\"\\u00ff\\u0001\\\"\"",
+    "enum": "\"GREEN\"", "fixed": "\"\\u00ca\\u00fe\"", "typeref": "\"\"", "custom": "\"\"", "record": "{\"a\":-1,\"b\":\"\\\\\"}",
+    "union": "{\"string\":\"\"}",
+}
+
 BASE_TYPES = [
     named("enum", "Color", Symbols=["RED", "GREEN"], SymbolToDoc={}),
     named("fixed", "F2", Size=2),
@@ -91,16 +102,21 @@ def type_of(e):
     return t
 
 
-def default_of(e):
-    d = LEAF_DEFAULT[e[-1]]
+def default_of(e, lit="plain"):
+    if lit == "empty":                       # the outermost container is empty
+        return "[]" if e[0] == "array" else "{}"
+    d = (LEAF_DEFAULT_X if lit == "extreme" else LEAF_DEFAULT)[e[-1]]
     for c in reversed(e[:-1]):
-        d = "[%s]" % d if c == "array" else "{\"k\":%s}" % d
+        if lit == "extreme":                 # two entries, awkward map keys
+            d = "[%s,%s]" % (d, d) if c == "array" else "{\"\":%s,\"k \\\"q\\\"\":%s}" % (d, d)
+        else:
+            d = "[%s]" % d if c == "array" else "{\"k\":%s}" % d
     return d
 
 
 def field_of(name, it):
     m = it["m"]
-    return F(name, type_of(it["e"]), optional=m in ("opt", "optdef"), default=default_of(it["e"]) if m in ("def", "optdef") else None)
+    return F(name, type_of(it["e"]), optional=m in ("opt", "optdef"), default=default_of(it["e"], it.get("lit", "plain")) if m in ("def", "optdef") else None)
 
 
 def chunks(xs, n):
@@ -133,7 +149,7 @@ REST_ORDER = ["get", "create", "delete", "update", "partial_update", "batch_get"
 def item_key(it):
     # the modes of one type expression sit next to each other, so every packed record mixes required, optional and
     # defaulted fields (a record needs a default of its own to get a default constructor at all)
-    return (it["pos"], len(it["e"]), it["e"], it["m"])
+    return (it["pos"], len(it["e"]), it["e"], it["m"], it.get("lit", "plain"))
 
 
 def grammar_types(items, per=24):
@@ -147,10 +163,40 @@ def grammar_types(items, per=24):
         types.append(record("IncBase%d" % i, [field_of("b%d" % j, it) for j, it in enumerate(ch)]))
         types.append(record("IncMid%d" % i, [F("mid", P("int32"), optional=True)], includes=["IncBase%d" % i]))
         types.append(record("IncTop%d" % i, [F("top", P("string"))], includes=["IncMid%d" % i]))
+        # several direct includes next to each other (one embedded struct each, in declaration order)
+        types.append(record("IncMulti%d" % i, [F("own", P("int32"), optional=True)], includes=["IncBase%d" % i, "Leaf", "KeyParams", "KeyPart"]))
     for i, ch in enumerate(chunks(by("member"), per)):
         types.append(named("standaloneUnion", "Members%d" % i, Union={"HasNull": i % 2 == 1, "Members": [
             {"Type": type_of(it["e"]), "Alias": "m%d" % j} for j, it in enumerate(ch)]}))
     return types
+
+
+def flatten_includes(types):
+    """The root generation's manifest has no `includes`: the schema parser hands it every inherited field as a field of
+    the including record, marked includedFrom = the record that DECLARES it (included fields first, in include order)."""
+    recs = {d["name"]: d for t in types for k, d in t.items() if k == "record"}
+
+    def inherited(d):
+        out = []
+        for inc in d.get("includes", []):
+            p = recs[inc["name"]]
+            for f in inherited(p):
+                out.append(f)
+            for f in p["fields"]:
+                out.append(dict(f, includedFrom={"name": p["name"], "namespace": p["namespace"]}))
+        return out
+    res = []
+    for t in types:
+        (k, d), = t.items()
+        if k == "record" and d.get("includes"):
+            d = dict(d, fields=inherited(d) + d["fields"])
+            d.pop("includes")
+            res.append({k: d})
+        else:
+            if k == "record":
+                d = {x: y for x, y in d.items() if x != "includes"}
+            res.append({k: d})
+    return res
 
 
 def grammar_resources(items, per=8):
